@@ -387,7 +387,7 @@ structure MsgCls where
   deriving Repr, DecidableEq
 
 inductive SessionCls where
-  | Fix44Session | Fix50Session
+  | Fix42Session | Fix44Session | Fix50Session
   deriving Repr, DecidableEq
 
 /-- the generated package, abstractly: the five modules in the order `__init__` imports them -/
@@ -401,9 +401,10 @@ structure Module where
 
 /-- `Definitions._client_session` -/
 def clientSession : Version → Except Err SessionCls
+  | .v42 => .ok .Fix42Session
   | .v44 => .ok .Fix44Session
   | .v50 | .v50sp2 => .ok .Fix50Session
-  | _ => .error .value                            -- 'Version 4.2 is not supported'
+  | .unknown => .error .value                     -- 'Version … is not supported' (unreachable: `parse` has refused it)
 
 def bodySuffix : Str := lit "Body"
 
@@ -415,8 +416,8 @@ def ctxMessages (s : GState) : List Message → List MsgCls × GState
     let r2 := ctxMessages r1.2 rest
     (⟨m.name, m.tag, m.category, m.name ++ bodySuffix, r1.1⟩ :: r2.1, r2.2)
 
-/-- `Definitions.get_codegen_context` rendered through the five templates, starting from `s0`
-    (a fresh process: `s0 = {}`; what happens otherwise is C17's subject).
+/-- `Definitions.get_codegen_context` rendered through the five templates, with the class-level state at `s0`.
+    The method resets `Group.Contexts` and `Group.UniqueNameCounter` first, i.e. it always runs with `s0 = {}` (`codegen`).
     Order of evaluation as in the source: messages, `_client_session()`, fields, header, trailer; `Group.Contexts` last. -/
 def codegenFrom (s0 : GState) (defs : Defs) : Except Err Module :=
   let rm := ctxMessages s0 defs.messages
@@ -432,7 +433,7 @@ def codegenFrom (s0 : GState) (defs : Defs) : Except Err Module :=
 
 def codegen (defs : Defs) : Except Err Module := codegenFrom {} defs
 
-/-- `Generator(parse(spec, version), …).generate()` in a fresh process -/
+/-- `Generator(parse(spec, version), …).generate()` (the generator state is reset per generation, so no process history enters) -/
 def gen (d : Dict) : Except Err Module :=
   match parse d with
   | .error e => .error e
